@@ -3,7 +3,7 @@
    correspondence check assert, inside Coq, that the histories the harness
    generates satisfy the hypotheses. *)
 From Coq Require Import ZArith List Bool Lia Arith.
-From Tally Require Import Base.Obs Base.Search Model.Buckets Model.Prom
+From Tally Require Import Base.ObsCore Base.Search Model.Buckets Model.Prom
   Proof.PromP Proof.PromObjP Proof.PromSysP Proof.PromThmP.
 Import ListNotations.
 Open Scope Z_scope.
